@@ -51,4 +51,54 @@ GenNext ==
 GenSpec == GenInit /\ [][GenNext]_<<vars, hist>>
 
 PrintHist == (TLCGet("level") # Depth) \/ PrintT(<<"HIST", ToJson(hist)>>)
+
+-----------------------------------------------------------------------------
+(* Targeted generation ("trap properties"): exhaustive search of the generator (VIEW without   *)
+(* hist) prints the history of the first path TLC finds to every state in which one of the     *)
+(* windows below is open.  The Go driver appends the steps that drive through the window.      *)
+CONSTANT TrapCap      \* at most this many histories per trap and TLC worker
+
+Copying(k)  == \E q \in Clients : pc[q] = "copying" /\ op[q].k = k
+OpenH       == {h \in 1..MaxHandles : handles[h].open}
+TrapDefs == <<
+  \* 1 eviction snapshot holds a candidate that has vanished since, and the eviction still needs it
+  jan.phase = "evicting" /\ bytes > Target(jan.lim) /\ (\E k \in jan.cands : ~entries[k].present),
+  \* 2 eviction candidate whose shard is held by an in-progress store
+  jan.phase = "evicting" /\ bytes > Target(jan.lim) /\ (\E k \in jan.cands : lock[ShardOf[k]] # Free),
+  \* 3 cleanup found a key expired that has been refreshed / replaced since
+  jan.phase = "removing" /\ (\E k \in jan.todo : entries[k].present /\ ~entries[k].exp /\ lock[ShardOf[k]] = Free),
+  \* 4 cleanup key whose shard is held
+  jan.phase = "removing" /\ (\E k \in jan.todo : lock[ShardOf[k]] # Free),
+  \* 5 reader part-way through a body whose entry has been replaced by another version
+  \E h \in OpenH : handles[h].pos > 0 /\ ~handles[h].eof /\ entries[handles[h].k].present
+                     /\ entries[handles[h].k].ver # handles[h].ver,
+  \* 6 reader whose entry has been removed
+  \E h \in OpenH : ~handles[h].eof /\ ~entries[handles[h].k].present,
+  \* 7 lookup waiting for the lock of a key that is being overwritten
+  \E p \in Clients : pc[p] = "blocked" /\ pend[p][1] = "get" /\ Copying(pend[p][2]) /\ entries[pend[p][2]].present,
+  \* 8 store-triggered eviction that had to skip something
+  lastEv.kind = "store" /\ lastEv.skipped # {},
+  \* 9 store-triggered eviction that removed something while the store goes on
+  lastEv.kind = "store" /\ lastEv.removed # {} /\ (\E p \in Clients : pc[p] = "copying"),
+  \* 10 cycle eviction in which the size weight overrode recency
+  lastEv.kind = "cycle" /\ (\E r \in lastEv.removed : \E s \in {x \in Keys : lastEv.pre[x].present} \ lastEv.removed :
+                                 lastEv.pre[r].la > lastEv.pre[s].la),
+  \* 11 cycle eviction that stopped before exhausting its candidates
+  lastEv.kind = "cycle" /\ lastEv.removed # {} /\
+      ({x \in Keys : lastEv.pre[x].present} \ (lastEv.removed \cup lastEv.skipped) # {}),
+  \* 12 overwrite in flight over an existing entry whose source will fail
+  \E p \in Clients : pc[p] = "copying" /\ entries[op[p].k].present /\ op[p].failAt >= 0 /\ objs[op[p].obj].w = op[p].failAt,
+  \* 13 a limit lowered at run time below the current size, janitor idle
+  jan.phase = "idle" /\ bytes >= limit /\ limit # InitLimit /\ Present # {},
+  \* 14 two callers blocked behind one store
+  Cardinality({p \in Clients : pc[p] = "blocked"}) >= 2,
+  \* 15 eviction snapshot taken, then one of its candidates is overwritten in flight
+  jan.phase = "evicting" /\ (\E k \in jan.cands : entries[k].present /\ entries[k].ver # jan.pre[k].ver)
+>>
+NTraps == Len(TrapDefs)
+Trap(i) == TrapDefs[i] => ((TLCGet(i) >= TrapCap) \/ (TLCSet(i, TLCGet(i) + 1) /\ PrintT(<<"TRAP", i, ToJson(hist)>>)))
+Traps == \A i \in 1..NTraps : Trap(i)
+TrapInit == GenInit /\ (\A i \in 1..NTraps : TLCSet(i, 0))
+TrapSpec == TrapInit /\ [][GenNext]_<<vars, hist>>
+HistBound == Len(hist) <= Depth
 =============================================================================
